@@ -1,6 +1,6 @@
 (* C16  Every emitted script is well-formed for its interpreter.  Bash half proved for all programs;
    Batch half: checker validated per run (C16_batch_statement is not proved). *)
-From Verif Require Import Base.Bytestr Front.Ast Back.BashLines Back.Transpile Back.BashConv Back.BashSyntax Back.BashFacts Back.BatchConv Back.TraverseInv Back.BatchLabels.
+From Verif Require Import Base.Bytestr Front.Ast Back.BashLines Back.Transpile Back.BashConv Back.BashSyntax Back.BashFacts Back.BatchConv Back.BatchSyntax Back.TraverseInv Back.BatchLabels.
 Open Scope N_scope.
 
 (* For every program all of whose statements emit a command (the parser only builds such programs:
@@ -33,8 +33,8 @@ Print Assumptions C16_statement_block.
 (* Batch half, the part that is proved for every program: the labels of loops and conditionals are defined once. *)
 Theorem C16_batch_labels_unique : forall body script st,
   emit_batch body = TOk script st -> names_ok_all plain_name body = true ->
-  forall c k, fam c -> (cnt (lab c k) (concat (rev (w_funcs_code st)) ++ w_global st) <= 1)%nat.
-Proof. exact batch_family_labels_unique. Qed.
+  forall c k, fam c -> (cnt (lab c k) (batch_lines st) <= 1)%nat.
+Proof. exact batch_script_family_labels_unique. Qed.
 Print Assumptions C16_batch_labels_unique.
 
 (* Non-vacuity and the role of the hypothesis: an if whose body is an unused expression (which the parser
